@@ -82,7 +82,7 @@ def handoff(chk, cases):
     d = bindings.shm_dir("c01")
     path = os.path.join(d, "sg0")
     open(path, "wb").close()
-    devs = {"sgio": mod("pyscsi.pyscsi.scsi_device").SCSIDevice(path),
+    devs = {"sgio": mod("pyscsi.pyscsi.scsi_device").SCSIDevice(path, readwrite=True),
             "iscsi": mod("pyscsi.pyiscsi.iscsi_device").ISCSIDevice("iscsi://127.0.0.1:3260/iqn.t/0", "iqn.i")}
     seen, n = {}, 0
     try:
